@@ -36,6 +36,9 @@ FLOWS = [
     {"name": "clean+plain", "unclean": False, "template": False},
     {"name": "wal-pending+template", "unclean": True, "template": True},
     {"name": "wal-pending+plain", "unclean": True, "template": False},
+    # two backups taken by one context with small commits in between (content stays in the write-ahead log)
+    {"name": "two-backups", "unclean": False, "template": False, "two": True},
+    {"name": "two-backups+wal-pending", "unclean": True, "template": False, "two": True},
 ]
 
 
@@ -97,11 +100,19 @@ class Tracer:
         self.images = {}     # fp -> dict(event, label, dir)
         self.n = 0
         self.kill_at = None  # for the forked realisation
+        self.nbackups = 0    # completed backup_db() calls so far
+        self.in_backup = False
 
     def __call__(self, frame, ev, arg):
         fn = frame.f_code.co_filename
         if not fn.endswith(SRC_FILES):
             return None
+        if frame.f_code.co_name == "backup_db":
+            if ev == "call":
+                self.in_backup = True
+            elif ev == "return":
+                self.in_backup = False
+                self.nbackups += 1
         if ev == "line":
             name = frame.f_code.co_name
             if name in SKIP_FUNCS:
@@ -115,7 +126,8 @@ class Tracer:
             if h not in self.images:
                 img = Path(self.imgbase) / ("%s_%d" % (self.tag, len(self.images)))
                 shutil.copytree(self.work, img)
-                self.images[h] = {"event": self.n, "label": "%s:%d" % (name, frame.f_lineno), "dir": str(img)}
+                self.images[h] = {"event": self.n, "label": "%s:%d" % (name, frame.f_lineno), "dir": str(img),
+                                  "nbackups": self.nbackups, "in_backup": self.in_backup}
         return self
 
 
@@ -126,6 +138,21 @@ def phase1(work):
     Wtp.get_page.cache_clear()   # same executed lines in every realisation
     w = new_ctx(db_path=Path(work) / "t.db")
     analyze_and_overwrite_pages(w, [Path(work) / "ov.json"], True, None)
+    w.close_db_conn()
+
+
+def phase1_two(work):
+    from wikitextprocessor import Wtp
+
+    Wtp.get_page.cache_clear()
+    w = new_ctx(db_path=Path(work) / "t.db")
+    w.backup_db()
+    w.add_page("Q1", 0, "written after the first backup")
+    w.db_conn.commit()
+    w.backup_db()
+    w.add_page("Q2", 0, "written after the second backup")
+    w.add_page("P0", 0, "P0 overwritten after the second backup")
+    w.db_conn.commit()
     w.close_db_conn()
 
 
@@ -142,7 +169,7 @@ def traced(fn, tracer, work):
         sys.settrace(None)
 
 
-def judge(acc, case, img_dir, want):
+def judge(acc, case, img_dir, want, also=None):
     tmp = img_dir + "_open"
     shutil.copytree(img_dir, tmp)
     try:
@@ -153,7 +180,7 @@ def judge(acc, case, img_dir, want):
             return None
         if integ != ["ok"]:
             acc.violation("integrity_check", case, integ[:3], ["ok"])
-        if pages != want:
+        if pages != want and (also is None or pages != also):
             gt = {p[0]: p[2] for p in pages}
             wt = {p[0]: p[2] for p in want}
             lost = sorted(set(wt) - set(gt))
@@ -178,7 +205,18 @@ def work(payload, skip, report):
         wk = Path(base) / "work"
         shutil.copytree(s0, wk)
         t1 = Tracer(str(wk), base, "p1")
-        traced(phase1, t1, str(wk))
+        two = bool(flow.get("two"))
+        traced(phase1_two if two else phase1, t1, str(wk))
+        want2 = sorted(want + [("Q1", 0, "written after the first backup", None)])
+
+        def expect(info):
+            """Content at the last completed backup; while a backup is in progress either side of it is acceptable."""
+            if not two:
+                return want, None
+            k = info.get("nbackups", 0)
+            w_k = want if k <= 1 else want2
+            return w_k, (want2 if (info.get("in_backup") and k == 1) else None)
+
         nev1 = t1.n
         t2 = Tracer(str(wk), base, "p2")
         traced(phase2, t2, str(wk))
@@ -192,7 +230,11 @@ def work(payload, skip, report):
                 report(i)
                 i += 1
                 case = {"flow": flow["name"], "phase": phase, "kill_before_line": info["label"], "event": info["event"]}
-                res = judge(acc, case, info["dir"], want)
+                if phase == "restore" and two:
+                    w_, a_ = want2, None
+                else:
+                    w_, a_ = expect(info)
+                res = judge(acc, case, info["dir"], w_, a_)
                 acc.case()
                 acc.distinct("images", fp)
                 outcomes[(phase, info["event"])] = res
@@ -213,7 +255,8 @@ def work(payload, skip, report):
                 i += 1
                 case = {"flow": flow["name"], "phase": "override then restore", "kill_before_line": info["label"],
                         "event": info["event"], "second_kill_before_line": info2["label"], "second_event": info2["event"]}
-                judge(acc, case, info2["dir"], want)
+                w_, a_ = expect(info)
+                judge(acc, case, info2["dir"], w_, a_)
                 acc.case()
                 acc.distinct("images", fp + fp2)
         # real killed process for every distinct phase-1 image (thorough)
@@ -229,7 +272,7 @@ def work(payload, skip, report):
                     tk.kill_at = info["event"]
                     sys.settrace(tk)
                     try:
-                        phase1(str(wk3))
+                        (phase1_two if two else phase1)(str(wk3))
                     finally:
                         os._exit(78)
                 _, status = os.waitpid(pid, 0)
@@ -241,7 +284,8 @@ def work(payload, skip, report):
                 if os.WEXITSTATUS(status) != 77:
                     acc.violation("replay_divergence", case, os.WEXITSTATUS(status), 77)
                     continue
-                res = judge(acc, case, str(wk3), want)
+                w_, a_ = expect(info)
+                res = judge(acc, case, str(wk3), w_, a_)
                 if res != outcomes.get(("override", info["event"])):
                     acc.violation("image_equals_real_kill", case, "real kill outcome differs from the copied image's", "same outcome")
         acc.sample({"flow": flow["name"], "phase1_line_events": nev1, "phase2_line_events": t2.n,
@@ -269,7 +313,7 @@ def main(run):
     cov = {
         "distinct_nontrivial": len(run.acc.sets.get("images", ())),
         "kill_points_enumerated": c["line_events_phase1"] + c["line_events_phase2"] + c["line_events_double"],
-        "rule": "4 flows (database clean / with committed content pending in the write-ahead log x override set with / without a "
+        "rule": "6 flows (4 override flows + 2 flows with two backups taken by one context and small commits in between; database clean / with committed content pending in the write-ahead log x override set with / without a "
                 "template, i.e. both branches of analyze_and_overwrite_pages); every executed source line of core.py and dumpparser.py "
                 "during open+backup+overwrite+commit+close and during the restoring re-open is a kill point; distinct on-disk states "
                 "(content hash of the directory) are the crash images, which is sound because recovery is a function of the files; for "
